@@ -28,10 +28,10 @@ TStart == /\ IsEvent("Start") /\ UNCHANGED tid
           /\ Chk("sender: piece lengths", Rec.pieces = PieceLens(WireLen(Rec.proto, Rec.n), Rec.C))
           /\ Chk("sender: only the last piece is end-marked",
                  Rec.eofs = [k \in 1..NumChunks(WireLen(Rec.proto, Rec.n), Rec.C) |-> IF k = NumChunks(WireLen(Rec.proto, Rec.n), Rec.C) THEN 1 ELSE 0])
-          /\ Chk("sender: length prefix", Rec.proto = "xfer" => Take(Rec.head, 4) = LE32(Rec.n))
+          /\ Chk("sender: length prefix", IsXfer(Rec.proto) => Take(Rec.head, 4) = LE32(Rec.n))
           /\ Chk("sender: payload follows the prefix",
                  LET w == Wire(Rec.proto, Min(Rec.n, 12)) IN SubSeq(Rec.head, 1, Min(Len(Rec.head), Len(w))) =
-                     (IF Rec.proto = "xfer" THEN LE32(Rec.n) \o Payload(Min(Rec.n, 12)) ELSE w))
+                     (IF IsXfer(Rec.proto) THEN LE32(Rec.n) \o Payload(Min(Rec.n, 12)) ELSE w))
 ChkAfter == /\ Chk(IF Rec.done THEN "completed although a piece is missing" ELSE "not completed although every piece arrived",
                    Rec.done = done')
             /\ Chk("complete but reassembly differs from the payload", done' => Rec.asm_is_payload)
